@@ -581,6 +581,13 @@ func (c *Ctx) execSelect(s *State, x *ssa.Select) []*State {
 		idx := int64(chosen)
 		if chosen == n {
 			idx = -1
+			// default is taken only when no case is ready; a receive from a closed channel is always ready
+			for _, cs := range x.States {
+				if cs.Dir == types.RecvOnly {
+					ch := c.val(st, cs.Chan).(Sc).T
+					st.assume(Or(Eq(ch, IntLit(0)), Not(c.chanClosed(st, ch))))
+				}
+			}
 		}
 		res := Tu{E: append([]Value{Sc{T: IntLit(idx)}, recvOk}, recvVals...)}
 		st.top().vals[x] = res
@@ -780,6 +787,12 @@ func (c *Ctx) doLock(s *State, in ssa.Instruction, key string, base Term, write 
 		c.structural(okOrder, "locklevel", fmt.Sprintf("%s/lock@%s#%d:level:%s", fk, otag(in), ord, key), pos,
 			fmt.Sprintf("lock order: %s (level %d) acquired while holding %s", key, lvl, worst), []string{"C13"})
 	}
+	if hasLvl {
+		if cur := c.eng.contracts.funcs[qualFnName(c.fn)]; cur != nil {
+			c.structural(cur.AcquiresLevel > 0 && lvl >= cur.AcquiresLevel, "locklevel", fmt.Sprintf("%s/lock@%s#%d:declared:%s", fk, otag(in), ord, key), pos,
+				fmt.Sprintf("%s (level %d) is acquired but the contract of %s declares acquires-level %d", key, lvl, cur.Key, cur.AcquiresLevel), []string{"C13"})
+		}
+	}
 	s.locks = append(s.locks, LockHeld{Key: key, Base: base, Write: write, Level: lvl})
 	s.seq++
 	s.trace = append(s.trace, Event{Name: "lock:" + key, Args: []Value{Sc{T: base}}, PC: len(s.pc), Pos: pos, Seq: s.seq})
@@ -796,6 +809,18 @@ func (c *Ctx) doLock(s *State, in ssa.Instruction, key string, base Term, write 
 		s.assume(inv)
 	}
 	if s.atLock == nil {
+		if fc := c.eng.contracts.funcs[qualFnName(c.fn)]; fc != nil && in.Parent() == c.fn && len(s.frames) == 1 {
+			env := c.loopEnv(s)
+			for _, cl := range fc.AssumeAtLock {
+				g := env.evalBool(cl.Expr)
+				for _, e := range env.errs {
+					c.unsupported("assume-at-lock of " + fc.Key + ": " + e)
+				}
+				env.errs = nil
+				s.assume(g)
+				c.note("assumed (not proved) in " + fc.Key + " after taking its lock: " + cl.Src)
+			}
+		}
 		s.atLock = s.snapshot()
 	}
 }
